@@ -12,7 +12,7 @@ import WacProofs.Lemmas.GraphToVal
   It is FALSE as it stands (`wf_needs_single_definition_names`): `WF.defNames` asks that a
   definition is exported under one name only, and `export` on a definition node adds a second
   name (known finding `enc-definition-renamed-by-export`, DESIGN §10 row 4).  Proved:
-  `inv_wf_graphVal` with that as an explicit hypothesis on the state, plus what the graph model
+  `inv_wf_graphVal_partial` with that as an explicit hypothesis on the state, plus what the graph model
   does not contain (the encoder-level kind of an item kind, distinct import names per package).
 -/
 namespace Wac.Props.C06Bridge
@@ -68,7 +68,7 @@ theorem reachable_invariants (ctx : Ctx) (hw : TyWF ctx) : ∀ (ops : List Op) (
     `wf_needs_single_definition_names`), and with what the graph model abstracts away: definition
     nodes are types and instances are instances at the encoder level (`hty`, `hinst`), import
     names of a package are distinct (`hnames`) -/
-theorem inv_wf_graphVal (ctx : Ctx) (vc : ValCtx) (g : Graph) (h : Inv ctx g) (hd : DefItem ctx g)
+theorem inv_wf_graphVal_partial (ctx : Ctx) (vc : ValCtx) (g : Graph) (h : Inv ctx g) (hd : DefItem ctx g)
     (hty : ∀ ty, (vc.ty (ctx.tyKind ty)).kind = .type)
     (hinst : ∀ id d, g.pkgOf id = .ok d → (vc.ty d.instKind).kind = .instance)
     (hnames : ∀ id d, g.pkgOf id = .ok d → (d.imports.map (·.1)).Nodup)
@@ -93,8 +93,8 @@ example : Inv ctxW gR ∧ DefItem ctxW gR ∧
   exact this
 
 /-- over histories: every graph the API reaches without panicking has a well-formed graph value,
-    PARTIAL (same hypotheses as `inv_wf_graphVal`, on the final state) -/
-theorem reachable_wf (ctx : Ctx) (vc : ValCtx) (hw : TyWF ctx) (ops : List Op)
+    PARTIAL (same hypotheses as `inv_wf_graphVal_partial`, on the final state) -/
+theorem reachable_wf_partial (ctx : Ctx) (vc : ValCtx) (hw : TyWF ctx) (ops : List Op)
     (hnp : ∀ o ∈ (run ctx {} ops).2, o.isPanic = false)
     (hty : ∀ ty, (vc.ty (ctx.tyKind ty)).kind = .type)
     (hinst : ∀ id d, (run ctx {} ops).1.pkgOf id = .ok d → (vc.ty d.instKind).kind = .instance)
@@ -103,7 +103,7 @@ theorem reachable_wf (ctx : Ctx) (vc : ValCtx) (hw : TyWF ctx) (ops : List Op)
       nd.isDef = true → nd.exp = some e.1) :
     Spec.WF (toGraphVal ctx vc (run ctx {} ops).1) := by
   obtain ⟨h, _, hd⟩ := reachable_invariants ctx hw ops {} (inv_init ctx) aliasUnique_init (defItem_init ctx) hnp
-  exact inv_wf_graphVal ctx vc _ h hd hty hinst hnames hnames1
+  exact inv_wf_graphVal_partial ctx vc _ h hd hty hinst hnames hnames1
 
 /-- the full statement `Inv ctx g → Spec.WF (toGraphVal ctx vc g)` is false: a definition exported
     under a second name (`define_type` then `export`) is a consistent, reachable graph whose graph
